@@ -157,8 +157,17 @@ func runRandom(c *fw.Ctx) {
 			c.Violation("C02 config rejected", err.Error(), routes)
 			continue
 		}
-		for k := 0; k < 8; k++ {
+		nStreams := 8
+		if flavor != "route" && i%8 >= 6 {
+			// a long-lived server: many connections through one compiled route list, among the later ones clients that
+			// send nothing at all (what the routes decide on zero bytes has to happen for them too)
+			nStreams = 48
+		}
+		for k := 0; k < nStreams; k++ {
 			s, segs := randStream(r)
+			if nStreams > 8 && k >= 20 && r.Intn(3) == 0 {
+				s, segs = nil, nil
+			}
 			cs := &Case{Routes: routes, S: s, Segs: segs, Flavor: flavor}
 			var rec *hmods.ConnRec
 			closed := true
